@@ -27,6 +27,7 @@ def outcomeName : Remove.Outcome → String
   | .failed .isSetup => "IsSetup"
   | .failed .noPermission => "NoPermission"
   | .failed .tagNotFound => "NoSuchTag"
+  | .failed .eof => "EOF"
 
 def pairJson (p : Str × Str) : Json := Json.arr #[ofStr p.1, ofStr p.2]
 
@@ -69,6 +70,12 @@ def handle : Handler := fun j => do
           pure (removeWith s0 uses nm (Str.ofString (← v.getStr?)) (← r.getBool?) (← chk.getBool?) (← f.getBool?) dflt)
         else if how.startsWith "tag:" then
           pure (removeByTag s0 uses nm (Str.ofString (how.drop 4).toString) (← r.getBool?) (← chk.getBool?) (← f.getBool?) dflt)
+        else if how.startsWith "ask:" then
+          -- `eups remove -i`: the answers typed, one letter each (y n q ! e = empty line, x = anything else)
+          let answers := (how.drop 4).toString.toList.map fun c =>
+            match c with
+            | 'y' => Ans.y | 'n' => Ans.n | 'q' => Ans.q | '!' => Ans.bang | 'e' => Ans.empty | _ => Ans.other
+          pure (removeWithI s0 uses nm (Str.ofString (← v.getStr?)) (← r.getBool?) (← chk.getBool?) (← f.getBool?) dflt answers)
         else if how.startsWith "untag:" then
           pure (Remove.Outcome.ok, untag s0 (Str.ofString (how.drop 6).toString), ([] : List Deps.Prod))
         else throw s!"unknown form {how}"
